@@ -58,7 +58,7 @@ def std_run(engine, job, obligations_fn, marker, prop, scen, files=None, opt='O1
             res['sample'] = sample_of(job, r, sec)
         stats = res
         for o, m in decide(eng, r.st, obls, stats):
-            add_violation(res, '%s/%s/%s' % (prop, scen, o.locus), o.detail, replay_of(eng, r.st, m, job, files))
+            add_violation(res, '%s/%s/%s' % (prop, scen, o.locus), o.detail, replay_of(eng, r.st, m, job, files), o.cls)
     res['solver_queries'] += eng.sc.queries - q0
     res['solver_s'] = eng.sc.time - t0
     res['functions'] = sorted(f for f in eng.fn_executed if 'ezc3d' in f)
